@@ -202,3 +202,10 @@ def band_specs(rng, thorough):
         out.append({'label': 'tiny-rotation', 'kind': 'rect', 'dx': [10.0] * 4, 'dy': [10.0] * 4, 'dz': [5.0] * 3,
                     'origin': [0.0, 0.0, 0.0], 'rotate': ang})
     return out
+
+
+# witness of finding column_track:crossing-short-relative-to-distance-from-start
+# (findings/C12-column-track-far-crossing.json): two 1 x 1 columns between two 1000 x 1 columns
+FAR_CROSSING_SPEC = {'label': 'far-crossing', 'kind': 'rect', 'dx': [1000.0, 1.0, 1.0, 1000.0], 'dy': [1.0], 'dz': [10.0],
+                     'origin': [0.0, 0.0, 0.0]}
+FAR_CROSSING_LINES = [[[-1500.0, 0.25], [1500.0, 0.75]], [[1500.0, 0.75], [-1500.0, 0.25]], [[900.0, 0.25], [1100.0, 0.75]]]
